@@ -37,6 +37,20 @@ def pad_rules(chk, repo):
                 for k in (0, 1):
                     if va_ & ax_atoms[k] == ax_atoms[k]:
                         seen_ax[k] = True
+        for k in (0, 1):
+            if not seen_ax[k]:
+                # an axis without a branch of its own is fine when its slices are the same on every path (written with
+                # max / min instead of a branch): the per-axis identities below then decide them
+                keys = set()
+                for p in returns(paths):
+                    si_ = unwrap_setitem(p.ret)
+                    va_ = si_[2].single_atom() if si_ is not None and isinstance(si_[2], Poly) else None
+                    if si_ is None or not isinstance(si_[1], Tup) or va_ is None or va_[0] != 'idx' or not isinstance(va_[2], Tup) \
+                            or len(si_[1]) != ndim or len(va_[2]) != ndim:
+                        continue
+                    keys.add((nf.vkey(si_[1].items[k + off]), nf.vkey(va_[2].items[k + off])))
+                if len(keys) == 1:
+                    seen_ax[k] = True
         if any(seen_ax) and len(returns(paths)) > 1:
             chk.ob('C20-a', 'D-guard', f.key, f'each axis is padded or cropped according to its own lengths [ndim={ndim}]', all(seen_ax),
                    '' if all(seen_ax) else f'no branch compares the {"row" if not seen_ax[0] else "column"} length of the array with the requested '
